@@ -448,3 +448,20 @@ example : substJ [("?a", .str "?b"), ("?b", .num 1)] (.str "?a") = .ok (.str "?b
     substJ [("?a", .str "?b"), ("?b", .num 1)] (.str "?b") = .ok (.num 1) := ⟨by rfl, by rfl⟩
 
 end PostExamples
+
+/-- **subst_mixed_conservative** — the driver evaluates `substDX`, which also answers strings that mix text and variables
+(`substMixed`: whole tokens `?` + word characters that name a bound scalar are replaced by its text). Wherever the model of the
+fragment (`substD`) answers, the extension answers the same: every theorem above transfers to what the driver computes. -/
+theorem subst_mixed_conservative {d : Option J} {bs : Bs} (t r : J) (h : substD d bs t = .ok r) : substDX d bs t = .ok r :=
+  substDX_of_ok t r h
+
+/-- whole tokens only: `?w` is not replaced inside `?w2` or `?wx`; numbers, booleans and null are inserted as JSON text; an
+unbound token stays; a token glued to the next one, a structured value and a value with `$` or `?` are not modelled -/
+example :
+    (match substMixed [("?w", .str "homer"), ("?n", .num 7), ("?z", .null)] "id-?w <?w2> ?wx ?n/?z ?u." with
+      | .ok (.str s) => s == "id-homer <?w2> ?wx 7/null ?u." | _ => false) = true ∧
+    (match substMixed [("?w", .str "homer"), ("?l", .str "chips")] "?w?l" with | .error _ => true | .ok _ => false) = true ∧
+    (match substMixed [("?e", .obj [])] "x ?e" with | .error _ => true | .ok _ => false) = true ∧
+    (match substMixed [("?w", .str "a$1")] "x ?w" with | .error _ => true | .ok _ => false) = true := by
+  decide +kernel
+
